@@ -1,10 +1,14 @@
 COOP_NOTE = ("Trusted base: Go toolchain, pgregory.net/rapid, x/tools go/packages, the instrumenter tools/instr, the coop runtime vrt and its "
              "sync/atomic/time shims, the harness's recording adapters and reference model. Schedules are explored at synchronisation-operation "
              "granularity; exploration never shows absence.")
-def coop_text(what):
+SWEEP_TEXT = (" Before the generated part, small fixed race scenarios (set-up, barrier, racing calls) and the stored minimal failing programs are run "
+              "under EVERY schedule with at most one (quick) / two (thorough; complete for the small programs, strided otherwise) deviations from the "
+              "base schedule; 30% of the generated programs are race-shaped too (barrier + deviations placed uniformly over the program's real choice points, "
+              "one in five of those swept over every single deviation).")
+def coop_text(what, sweeps=True):
     return ("Exploration by property-based testing: rapid generates configuration x multi-goroutine client program x schedule (deviation list / PCT / "
             "random walk over a deterministic cooperative scheduler that owns every synchronisation operation of the instrumented library, virtual clock "
-            "included); " + what + " Failures shrink to a minimal replayable JSON case.")
+            "included); " + what + (SWEEP_TEXT if sweeps else "") + " Failures shrink to a minimal replayable JSON case.")
 META = {
  "C01": {"technique": "stateful property-based testing with generated schedules (rapid + cooperative deterministic scheduler); history invariant oracle",
          "text": coop_text("the oracle is an invariant over the totally ordered history: each accepted job entered exactly once with its ID/data unless cancelled/purged, rejected/cancelled never entered."), "note": COOP_NOTE},
@@ -17,7 +21,7 @@ META = {
  "C06": {"technique": "property-based testing with generated schedules; barrier-return exactness oracle",
          "text": coop_text("WaitUntilFinished/PauseAndWait/Stop/WaitAndStop returns are checked against the start/finish events of the jobs accepted before the call; a barrier blocked at quiescence is a violation."), "note": COOP_NOTE},
  "C07": {"technique": "property-based testing; oracle = pure function of the job's data recomputed by the harness",
-         "text": coop_text("Result()/Err()/batch results/Errs()/metrics are compared with the harness-side outcome assignment (value, error, three panic kinds); any escaping panic is a violation."), "note": COOP_NOTE},
+         "text": coop_text("Result()/Err()/batch results/Errs()/metrics are compared with the harness-side outcome assignment (value, error, four panic kinds incl. a non-string non-error value); any escaping panic is a violation."), "note": COOP_NOTE},
  "C08": {"technique": "property-based testing with generated schedules; multiset + close-once oracle on batch streams",
          "text": coop_text("the multiset read from a batch stream until close is compared with the executed items, NumPending samples with item progress, and double close / never closed / escaping panics are detected exactly."), "note": COOP_NOTE},
  "C09": {"technique": "property-based testing with generated schedules; no-start-after-barrier oracle",
@@ -32,16 +36,16 @@ META.update({
          "text": "Exploration by property-based testing in two parts: rapid state-machine sequences (enqueue, bursts across segment boundaries, dequeue, purge, values, close; arbitrary int priorities) are applied to internal/queues and to a slice / stably sorted reference model and compared after every step; " + coop_text("dispatch order of a concurrency-1 worker and the started-prefix of a concurrency-n worker are checked against the (priority, arrival) order of certainly-pending jobs.") + " Thorough tier adds a coverage-guided go test -fuzz campaign on the same property.",
          "note": COOP_NOTE + " Queue part runs on the uninstrumented library."},
  "C11": {"technique": "property-based testing + fault enumeration: generated programs/schedules/fault plans, every adapter-call crash cut enumerated, recovery episode per cut",
-         "text": "Fault enumeration on top of property-based testing: " + coop_text("a recording adapter logs every Enqueue/DequeueWithAckId/Acknowledge on the episode's total order; the acknowledgement log law (issued id, at most once, after the worker function returned) is checked on every run; each generated case is re-executed deterministically and cut at EVERY adapter-call boundary, the crash law (accepted => processed or still held) is checked at the cut, and a fresh worker on the recovered adapter contents must drain everything, also under a generated fault plan."),
+         "text": "Fault enumeration on top of property-based testing: " + coop_text("a recording adapter logs every Enqueue/DequeueWithAckId/Acknowledge on the episode's total order; the acknowledgement log law (issued id, at most once, after the worker function returned) is checked on every run; each generated case is re-executed deterministically and cut at EVERY adapter-call boundary, the crash law (accepted => processed or still held) is checked at the cut, and a fresh worker on the recovered adapter contents must drain everything, also under a generated fault plan.", sweeps=False),
          "note": COOP_NOTE + " Crash = the episode stops between two adapter calls; the adapter's durable state is its pending and unacknowledged sets."},
  "C12": {"technique": "property-based testing of an encode/decode round trip against an independent harness-side JSON round trip; bad-entry injection at generated positions",
-         "text": coop_text("11 payload types with generated values (unicode, escapes, 64-bit extremes, NaN/Inf, unencodable values) and IDs go through Add on a recording adapter and a consuming worker and are compared (reflect.DeepEqual) with the harness's own Marshal/Unmarshal into the same type; undecodable entries of five kinds are placed at generated positions among valid stored entries and the valid ones must all run once, in order, with an error offered for the bad ones."),
+         "text": coop_text("11 payload types with generated values (unicode, escapes, 64-bit extremes, NaN/Inf, unencodable values) and IDs go through Add on a recording adapter and a consuming worker and are compared (reflect.DeepEqual) with the harness's own Marshal/Unmarshal into the same type; undecodable entries of seven kinds (incl. a valid entry followed by more bytes, two entries glued) are placed at generated positions among valid stored entries and the valid ones must all run once, in order, with an error offered for the bad ones.", sweeps=False),
          "note": COOP_NOTE},
  "C13": {"technique": "property-based testing with generated schedules; exactly-once-overall oracle on a shared recording adapter",
          "text": coop_text("1-3 consumer workers share one recording distributed adapter, notifications are delivered synchronously or by a notifier goroutine, items exist before binding; at rest every item must have been executed exactly once overall and every consumer's Submitted must equal the notifications delivered."),
          "note": COOP_NOTE},
  "C14": {"technique": "bounded-exhaustive enumeration of call sequences + random long sequences against a reference state machine (model-based testing)",
-         "text": coop_text("every lifecycle call sequence up to the bound x 12 configuration variants is enumerated on the base schedule and longer sequences are generated with generated schedules; after each call the error value and Status() are compared with the documented state machine, and a probe job submitted at the end must run iff the reference state is Running."),
+         "text": coop_text("every lifecycle call sequence up to the bound x 12 configuration variants is enumerated on the base schedule and longer sequences are generated with generated schedules; after each call the error value and Status() are compared with the documented state machine, and a probe job submitted at the end must run iff the reference state is Running.", sweeps=False),
          "note": COOP_NOTE + " Exhaustive only for the stated bound and the base schedule."},
  "C15": {"technique": "property-based testing; validity predicate per dispatch replayed on model populations",
          "text": coop_text("2-5 queues of all six kinds are bound in generated order to a paused concurrency-1 worker, generated populations are loaded (and extended at settled points), and every dispatch is checked against the strategy's rule on the model's queue lengths (round-robin cursor, max, min among non-empty) and against the head of the chosen queue."),
